@@ -4,7 +4,7 @@ CONSTANTS
   NoReq = 0
   AnnVals = {}
   MatIn = {"SYMMETRIC"}
-  MaxEntries = 1
+  MaxEntries = 2
   MaxHandles = 1
   OptMode = "one"
   MaxAnnList = 0
